@@ -2,7 +2,7 @@
    Statements only; every proof is [exact lemma].  Model: Store/Model.v (mechanism, with the repairs fixes/F1, fixes/F2),
    specification: Store/Spec.v ([flat], [range_query]); interleavings: Store/Conc.v. *)
 From NG Require Import Common.Tactics Store.Bytes Store.Model Store.Spec Store.MapLemmas Store.MergeProof
-  Store.Refine Store.Conc Store.ConcFine Store.Legacy.
+  Store.Refine Store.GcProof Store.Model2 Store.SplitProof Store.Conc Store.ConcFine Store.ConcBound Store.Conc2 Store.Legacy.
 Open Scope N_scope.
 
 (* ---- point reads ---- *)
@@ -100,6 +100,7 @@ Print Assumptions C09_history_refines.
 Theorem C09_persist_regions_preserve_flat : forall c a, cwf c ->
   match a with
   | AWrite b => sorted false b -> cflat (cstep c a) = apply_writes b (cflat c)
+  | AGc r g => ctemp c = None -> cflat (cstep c a) = apply_writes (cm c) (base_seekgc (cbk c) (gkeep g) (gstop g) r (cx c))
   | _ => cflat (cstep c a) = cflat c
   end.
 Proof. exact persist_regions_preserve_flat. Qed.
@@ -126,6 +127,160 @@ Definition C09_reader_atomic_statement : Prop := reader_atomic_statement.
 Theorem C09_reader_atomic_refuted : ~ C09_reader_atomic_statement.
 Proof. exact reader_atomic_refuted. Qed.
 Print Assumptions C09_reader_atomic_refuted.
+
+(* ---- the two-map mechanism (chooseMap: mem / stor by the first key byte), Store/Model2.v ----
+   Get chooses the map by the key, Seek and SeekGC choose ONE map by the first byte of the PREFIX, putChangeSet copies
+   map-wise, the disk stores take both maps into one bucket.  Joining the two maps of every store is a simulation onto
+   the one-map model; Seek needs a non-empty prefix (with an empty one the Go code panics: documented restriction,
+   store.go:55-59; no caller passes one to a MemCachedStore). *)
+Theorem C09_split_get : forall s k, wf2 s -> store_get2 s k = store_get (join s) k.
+Proof. exact join_get. Qed.
+Print Assumptions C09_split_get.
+
+Theorem C09_split_seek : forall s cut r, wf2 s -> rprefix r <> [] -> store_seek2 s cut r = store_seek (join s) cut r.
+Proof. exact join_seek. Qed.
+Print Assumptions C09_split_seek.
+
+Theorem C09_split_step : forall s o, wf2 s -> op_ok2 o -> join (step2 s o) = step (join s) o /\ wf2 (step2 s o).
+Proof. exact join_step. Qed.
+Print Assumptions C09_split_step.
+
+(* so after ANY op history the split mechanism answers like the one ordered map *)
+Theorem C09_split_history_refines : forall bk ops, Forall op_ok2 ops ->
+  let s2 := run2 (init2 bk) ops in
+  let s := run (init bk) ops in
+  (forall k, store_get2 s2 k = spec_get s k) /\
+  (forall cut r, range_ok r -> rprefix r <> [] -> store_seek2 s2 cut r = spec_seek s cut r).
+Proof. exact split_history_refines. Qed.
+Print Assumptions C09_split_history_refines.
+
+(* ---- SeekGC ---- *)
+(* base stores (MemoryStore under its write lock, Bolt in one Update transaction, LevelDB in one transaction): for any
+   callback and stopping point the new content is the old one minus the visited, rejected pairs of the range *)
+Theorem C09_seekgc_lookup : forall bk keep stop r b k, range_ok r -> keys_ok b -> sorted false b ->
+  lookup k (base_seekgc bk keep stop r b) =
+  if existsb (beq k) (gc_deleted keep stop (rq r b)) then None else lookup k b.
+Proof. exact base_seekgc_lookup. Qed.
+Print Assumptions C09_seekgc_lookup.
+
+(* run to the end: resulting map = filter of the old map (keys outside the range and kept pairs stay) *)
+Theorem C09_seekgc_is_filter : forall bk keep r b, range_ok r -> keys_ok b -> sorted false b ->
+  base_seekgc bk keep 0 r b =
+  filter (fun kv => negb (in_range (rprefix r) (rstart r) (rback r) (fst kv)) || keep (fst kv) (snd kv)) b.
+Proof. exact base_seekgc_is_filter. Qed.
+Print Assumptions C09_seekgc_is_filter.
+
+Theorem C09_seekgc_untouched : forall bk keep stop r b k, range_ok r -> keys_ok b -> sorted false b ->
+  in_range (rprefix r) (rstart r) (rback r) k = false \/ (forall v, lookup k b = Some v -> keep k v = true) ->
+  lookup k (base_seekgc bk keep stop r b) = lookup k b.
+Proof. exact base_seekgc_untouched. Qed.
+Print Assumptions C09_seekgc_untouched.
+
+Theorem C09_seekgc_backend_agree : forall bk1 bk2 keep stop r b, range_ok r -> keys_ok b -> sorted false b ->
+  base_seekgc bk1 keep stop r b = base_seekgc bk2 keep stop r b.
+Proof. exact base_seekgc_backend_agree. Qed.
+Print Assumptions C09_seekgc_backend_agree.
+
+(* MemCachedStore.SeekGC (the promoted MemoryStore.SeekGC) works on the layer's own maps only: what can disappear is a
+   live, in-range, rejected entry of that layer; tombstones stay and keep hiding lower values *)
+Theorem C09_layer_seekgc_only_rejected_live : forall keep stop r m k, sorted false m ->
+  lookup k (layer_seekgc keep stop r m) <> lookup k m ->
+  exists v, lookup k m = Some (Some v) /\ keep k v = false /\ in_range (rprefix r) (rstart r) (rback r) k = true.
+Proof. exact layer_seekgc_only_rejected_live. Qed.
+Print Assumptions C09_layer_seekgc_only_rejected_live.
+
+Theorem C09_layer_seekgc_keeps_tombstones : forall keep stop r m k, sorted false m ->
+  lookup k m = Some None -> lookup k (layer_seekgc keep stop r m) = Some None.
+Proof. exact layer_seekgc_keeps_tombstones. Qed.
+Print Assumptions C09_layer_seekgc_keeps_tombstones.
+
+(* a GC of the base store changes the one map only at keys it removed from the base *)
+Theorem C09_gc_base_flat_untouched : forall s r g k, wf s -> range_ok r ->
+  lookup k (base_seekgc (bkind s) (gkeep g) (gstop g) r (base s)) = lookup k (base s) ->
+  lookup k (flat (step s (OGcBase r g))) = lookup k (flat s).
+Proof. exact gc_base_flat_untouched. Qed.
+Print Assumptions C09_gc_base_flat_untouched.
+
+(* atomic for readers at lock granularity: with no Persist in flight and no writer, any number of base-store GCs between
+   a reader's snapshot and its lower read are seen entirely or not at all (answer = the one map at the lower read) *)
+Theorem C09_reader_gc_atomic : forall c0 pre r mid,
+  cwf c0 -> rsnap c0 = None -> rans c0 = None ->
+  Forall batch_ok pre ->
+  Forall (fun a => match a with ASnap _ | ARead => False | _ => True end) pre ->
+  ctemp (crun c0 pre) = None ->
+  Forall is_gc mid ->
+  range_ok r ->
+  rans (crun c0 (pre ++ ASnap r :: mid ++ [ARead])) = Some (rq r (cflat (crun c0 (pre ++ ASnap r :: mid)))).
+Proof. exact reader_gc_atomic. Qed.
+Print Assumptions C09_reader_gc_atomic.
+
+(* ---- F41 bounded: the strongest statement that holds with a Persist swap INSIDE the reader's window ----
+   for EVERY schedule of writers and Persist regions between the reader's two steps, key by key, what the reader reports
+   for a key (value or absence) is what the one ordered map held for that key at SOME instant of the interval *)
+Theorem C09_reader_pairwise_bounded : forall c0 pre r mid,
+  cwf c0 -> rsnap c0 = None -> rans c0 = None ->
+  Forall batch_ok pre -> Forall batch_ok mid ->
+  Forall (fun a => match a with ASnap _ | ARead => False | _ => True end) pre ->
+  Forall plain_action mid ->
+  range_ok r ->
+  exists ans,
+    rans (crun c0 (pre ++ ASnap r :: mid ++ [ARead])) = Some ans /\
+    sorted (rback r) ans /\
+    forall k, exists j, (j <= length mid)%nat /\
+      lookup k ans = if in_range (rprefix r) (rstart r) (rback r) k
+                     then lookup k (cflat (crun c0 (pre ++ ASnap r :: firstn j mid))) else None.
+Proof. exact reader_pairwise_bounded. Qed.
+Print Assumptions C09_reader_pairwise_bounded.
+
+(* hence a key whose value does not change during the interval is reported exactly *)
+Theorem C09_reader_untouched_key_exact : forall c0 pre r mid k v,
+  cwf c0 -> rsnap c0 = None -> rans c0 = None ->
+  Forall batch_ok pre -> Forall batch_ok mid ->
+  Forall (fun a => match a with ASnap _ | ARead => False | _ => True end) pre ->
+  Forall plain_action mid ->
+  range_ok r ->
+  (forall j, (j <= length mid)%nat -> lookup k (cflat (crun c0 (pre ++ ASnap r :: firstn j mid))) = v) ->
+  exists ans, rans (crun c0 (pre ++ ASnap r :: mid ++ [ARead])) = Some ans /\
+    lookup k ans = if in_range (rprefix r) (rstart r) (rback r) k then v else None.
+Proof. exact reader_untouched_key_exact. Qed.
+Print Assumptions C09_reader_untouched_key_exact.
+
+(* ---- two shared layers: Persist of the MIDDLE layer while a reader runs on the top layer (Store/Conc2.v) ---- *)
+Theorem C09_middle_persist_preserves_flat : forall c a, c2wf c ->
+  match a with
+  | BWrite1 b => sorted false b -> c2flat (c2step c a) = apply_writes b (c2flat c)
+  | BSub (AWrite _) | BSub (AGc _ _) => True
+  | _ => c2flat (c2step c a) = c2flat c
+  end.
+Proof. exact middle_persist_preserves_flat. Qed.
+Print Assumptions C09_middle_persist_preserves_flat.
+
+(* PARTIAL (same shape as C09_reader_atomic_partial): full-depth reader with three steps; nothing written INTO the middle
+   layer between its two snapshots, no new swap of the middle layer between the middle snapshot and the lower read;
+   everything else (top writers, the middle layer's swap before the middle snapshot, write below, unswap) is free *)
+Theorem C09_two_layer_reader_atomic : forall c0 pre r mid1 mid2,
+  c2wf c0 -> r1 c0 = None -> ans2 c0 = None -> rsnap (sub c0) = None -> rans (sub c0) = None ->
+  Forall batch_ok2 pre -> Forall batch_ok2 mid1 -> Forall batch_ok2 mid2 ->
+  Forall no_reader2 pre -> Forall quiet1 mid1 -> Forall quiet2 mid2 ->
+  range_ok r -> rdepth r = 0 ->
+  ans2 (c2run c0 (pre ++ BSnap1 r :: mid1 ++ BSub (ASnap r) :: mid2 ++ [BSub ARead])) =
+  Some (rq r (c2flat (c2run c0 pre))).
+Proof. exact two_layer_reader_atomic. Qed.
+Print Assumptions C09_two_layer_reader_atomic.
+
+(* depth-limited seeks (any SearchDepth): while nothing is written into the middle layer and it is neither swapped nor
+   unswapped during the reader's interval, the answer is the range query on the SearchDepth topmost PHYSICAL layers
+   (a tempstore in flight counts, as in the code) at the first snapshot *)
+Theorem C09_two_layer_reader_depth : forall c0 pre r mid1 mid2,
+  c2wf c0 -> r1 c0 = None -> ans2 c0 = None -> rsnap (sub c0) = None -> rans (sub c0) = None ->
+  Forall batch_ok2 pre -> Forall batch_ok2 mid1 -> Forall batch_ok2 mid2 ->
+  Forall no_reader2 pre -> Forall still mid1 -> Forall still mid2 ->
+  range_ok r ->
+  let c1 := c2run c0 pre in
+  ans2 (c2run c0 (pre ++ BSnap1 r :: mid1 ++ BSub (ASnap r) :: mid2 ++ [BSub ARead])) =
+  Some (rq r (flat_depth_layers (rdepth r) (phys c1) (cx (sub c1)))).
+Proof. exact two_layer_reader_depth. Qed.
+Print Assumptions C09_two_layer_reader_depth.
 
 (* ---- the reader at a finer grain: its code before s.rlock() is a step of its own (Store/ConcFine.v) ---- *)
 (* the code as written reads nothing of the store before the lock (maps chosen and s.ps captured inside the region):
@@ -210,6 +365,42 @@ Example C09_ex_schedule :
 Proof.
   cbv zeta. split; [|split].
   - unfold cwf, ex_c0; simpl. repeat split; auto; repeat constructor; simpl; lia.
+  - repeat constructor.
+  - vm_compute. reflexivity.
+Qed.
+
+(* the split mechanism on a history that uses both maps (first bytes 03 and 70), a flush, a GC of the base and of the top *)
+Definition ex_ops2 : list op :=
+  [OPut [3; 1] [1]; OPut [112; 1] [2]; OPut [3; 1; 0] [3]; OPersist 0; OWrap false; ODel [3; 1]; OPut [112; 1; 255] [4];
+   OGcBase {| rprefix := [3]; rstart := []; rback := true; rdepth := 0 |} {| gmod := 2; gres := 1; gstop := 0 |};
+   OPut [3; 9] [5]; OGcTop {| rprefix := [3]; rstart := []; rback := false; rdepth := 0 |} {| gmod := 1; gres := 0; gstop := 1 |}].
+Example C09_ex_split :
+  Forall op_ok2 ex_ops2 /\
+  let s2 := run2 (init2 BBolt) ex_ops2 in
+  store_seek2 s2 false {| rprefix := [3]; rstart := []; rback := false; rdepth := 0 |} = [] /\
+  store_seek2 s2 false {| rprefix := [112]; rstart := []; rback := true; rdepth := 0 |} = [([112; 1; 255], [4]); ([112; 1], [2])] /\
+  store_get2 s2 [3; 1] = None /\ join s2 = run (init BBolt) ex_ops2.
+Proof.
+  split; [repeat constructor; simpl; try lia; try discriminate; repeat constructor; lia|].
+  vm_compute. repeat split.
+Qed.
+
+(* a two-layer schedule meeting the hypotheses of C09_two_layer_reader_atomic: the middle layer is persisted around the reader *)
+Definition ex_c20 : c2state :=
+  {| top := [([112; 1], Some [1])];
+     sub := {| cbk := BLevel; cm := [([112; 2], Some [2])]; ctemp := None; cx := [([112; 3], [3])]; rsnap := None; rans := None |};
+     r1 := None; ans2 := None |}.
+Example C09_ex_two_layers :
+  let r := {| rprefix := [112]; rstart := []; rback := false; rdepth := 0 |} in
+  let mid1 := [BWrite1 [([112; 9], Some [9])]; BSub ASwap; BSub ALowerWrite] in
+  let mid2 := [BSub (AWrite [([112; 2], None)]); BSub AUnswap] in
+  c2wf ex_c20 /\ Forall quiet1 mid1 /\ Forall quiet2 mid2 /\
+  ans2 (c2run ex_c20 ([] ++ BSnap1 r :: mid1 ++ BSub (ASnap r) :: mid2 ++ [BSub ARead])) =
+  Some [([112; 1], [1]); ([112; 2], [2]); ([112; 3], [3])].
+Proof.
+  cbv zeta. split; [|split; [|split]].
+  - unfold c2wf, cwf, ex_c20; simpl. repeat split; auto; repeat constructor; simpl; lia.
+  - repeat constructor.
   - repeat constructor.
   - vm_compute. reflexivity.
 Qed.
